@@ -76,6 +76,9 @@ def judge(v, o):
     if ob["flat_ok"] != ob["paren_ok"] or ob["flat_out"] != ob["paren_out"]:
         return ("unparenthesised form evaluates differently from its fully parenthesised form",
                 common.show(bytes(ob["paren_out"])), common.show(bytes(ob["flat_out"])))
+    if "compact_ok" in ob and (ob["compact_ok"] != ob["flat_ok"] or ob["compact_out"] != ob["flat_out"]):
+        return ("the unparenthesised form evaluates differently when no blank separates an alphabetic operator from a sign, quote or bracket",
+                common.show(bytes(ob["flat_out"])), {"src": ob.get("compact_src"), "out": common.show(bytes(ob["compact_out"])), "err": ob.get("compact_err")})
     if exp["status"] == "ok" and (not ob["flat_ok"] or bytes(ob["flat_out"]) != bytes(exp["out"])):
         return "value differs from the reference", common.show(bytes(exp["out"])), common.show(bytes(ob["flat_out"])) if ob["flat_ok"] else ob.get("flat_err")
     if exp["status"] == "err" and ob["flat_ok"]:
